@@ -451,15 +451,20 @@ theorem exec_step_safe (fuel : Nat) (i : Instr) (hi : isCall i = false) (s : St)
   | prepareCall x nargs =>
     rw [exec]
     refine SafeAt_get ?_
+    dsimp only
     split
+    · exact then_safe (wrangleOptargs_safe _ _ s hg) incPc_safe
     · exact incPc_safe s hg
+  | tailGuard x skip =>
+    rw [exec]
+    refine SafeAt_get ?_
+    have hset : SafeAt s (set { s with pc := s.pc + skip } : M PUnit) :=
+      SafeAt_set _ s ⟨hg.data, hg.linear, hg.addr, hg.susp, hg.lazies⟩
+    split
     · split
-      · exact SafeAt_err s hg
-      · dsimp only
-        split
-        · exact then_safe (wrangleOptargs_safe _ _ s hg) incPc_safe
-        · exact incPc_safe s hg
       · exact incPc_safe s hg
+      · exact hset
+    · exact hset
   | pushLazy e =>
     rw [exec]
     refine SafeAt_get ?_
